@@ -129,7 +129,7 @@ def reference_header(with_labels):
 def reference_data(with_labels):
     cases = [[T("r%d_%d" % (i, k)) for k in range(n)] for i, n in enumerate((2, 3))]
     labels = [T("c0"), T("c1")] if with_labels else None
-    text = "".join(",".join(c) + ((":" + labels[i]) if with_labels else "") + "\n" for i, c in enumerate(cases))
+    text = "\n".join(",".join(c) + ((":" + labels[i]) if with_labels else "") for i, c in enumerate(cases))
     return text, cases, labels
 
 
@@ -157,7 +157,7 @@ def matches(got, cases, labels, sep_form):
 def parse(repo, mod, reader, text, sep_form):
     """Interpret the parser on an abstract file; returns ('ok', value) | ('raise', PyRaise, interp, vfs) | ('undecided', why)."""
     vfs = M.VFS(by_basename={"abstract.ts": text})
-    ri = Interp(repo, M.make_externals(vfs), M.to_float)
+    ri = Interp(repo, M.make_externals(vfs), M.to_float, M.str_hook)
     try:
         return ("ok", ri.call_function(mod, reader, ["abstract.ts"], {} if sep_form else {"return_separate_X_and_y": False}))
     except Undecided as e:
@@ -194,7 +194,7 @@ def rule_roundtrip(ctx, repo):
     for sc in all_sc:
         cases, labels, kw = scenario_inputs(sc)
         vfs = M.VFS()
-        wi = Interp(repo, M.make_externals(vfs), M.to_float)
+        wi = Interp(repo, M.make_externals(vfs), M.to_float, M.str_hook)
         try:
             wi.call_function(mod, writer, [M.PanelSym(cases), "/out"], dict(kw))
         except Undecided as e:
@@ -210,7 +210,7 @@ def rule_roundtrip(ctx, repo):
             continue
         text = vfs.files[written[0]].text()
         ctx.count("writer_scenarios")
-        first = text.find(cases[0][0])
+        first = text.find(cases[0][0][:-1])  # stem of the first observation token (it may have been altered)
         cut = text.rfind("\n", 0, first) + 1 if first >= 0 else len(text)
         w_header, w_data = text[:cut], text[cut:]
         has_labels = labels is not None
@@ -297,7 +297,7 @@ def abstract_ts(prefix, n, length=3, labels=("c1", "c0", "c1", "c0")):
         rows.append(M.SeriesV([M.Num(o[1:-1]) for o in obs]))
         labs.append(lab)
         body += ",".join(obs) + ":" + lab + "\n"
-    return head + body, rows, labs
+    return head + body[:-1], rows, labs  # no terminating newline after the last case: legal, and present in bundled files
 
 
 def rule_loader(ctx, repo):
@@ -313,7 +313,7 @@ def rule_loader(ctx, repo):
         for rxy in (True, False):
             tag = "_load_dataset[split=%s,return_X_y=%s]" % (split, rxy)
             vfs = M.VFS(by_basename=files)
-            it = Interp(repo, M.make_externals(vfs, listing=[name]), M.to_float)
+            it = Interp(repo, M.make_externals(vfs, listing=[name]), M.to_float, M.str_hook)
             try:
                 results[(split, rxy)] = it.call_function(mod, fn, [name, split, rxy])
                 results[(split, rxy, "opened")] = [p.rsplit("/", 1)[-1] for p, m in vfs.opened]
@@ -380,15 +380,15 @@ def rule_parsers(ctx, repo):
     ts_text, rows, labs = abstract_ts("", n, length)
     obs = [[T("%d_%d" % (i, k)) for k in range(length)] for i in range(n)]
     arff = "%% abstract\n@relation %s\n" % T("pname") + "".join("@attribute att%d numeric\n" % k for k in range(length)) \
-        + "@attribute target {%s,%s}\n\n@data\n" % (T("c0"), T("c1")) + "".join(",".join(o) + "," + l + "\n" for o, l in zip(obs, labs))
-    tsv = "".join(l + "\t" + "\t".join(o) + "\n" for o, l in zip(obs, labs))
+        + "@attribute target {%s,%s}\n\n@data\n" % (T("c0"), T("c1")) + "\n".join(",".join(o) + "," + l for o, l in zip(obs, labs))
+    tsv = "\n".join(l + "\t" + "\t".join(o) for o, l in zip(obs, labs))
     files = {"d.ts": ts_text, "d.arff": arff, "d.tsv": tsv}
     parsed = {}
     for fname, path in ((READER, "d.ts"), (ARFF, "d.arff"), (TSV, "d.tsv")):
         fn = repo.func(IO, fname)
         for sep in (True, False):
             vfs = M.VFS(by_basename=files)
-            it = Interp(repo, M.make_externals(vfs), M.to_float)
+            it = Interp(repo, M.make_externals(vfs), M.to_float, M.str_hook)
             c = "%s[%s]" % (fname, "X_y" if sep else "single-frame")
             try:
                 parsed[(fname, sep)] = it.call_function(mod, fn, [path], {} if sep else {"return_separate_X_and_y": False})
@@ -448,6 +448,55 @@ def rule_parsers(ctx, repo):
                 ctx.info("R4 info: %s names the single-frame label column %r, the .ts parser %r" % (fname, nm, ref))
 
 
+# ------------------------------------------------------------------------------ no state across calls
+MEMO_DECORATORS = {"functools.lru_cache", "functools.cache", "functools.cached_property", "cachetools.cached",
+                   "cachetools.func.lru_cache", "joblib.Memory.cache", "joblib.memory.Memory.cache"}
+MUTATORS = {"append", "add", "setdefault", "update", "extend", "insert", "__setitem__", "pop", "clear"}
+
+
+def rule_stateless(ctx, repo):
+    """The writer, the parsers and the loader are functions of their arguments and the file *content*: a result
+    memoised by path (or kept in a module-level container) is stale once the file is rewritten, and the cached
+    mutable frame is shared between callers -- the round trip and the loader forms then depend on call history."""
+    for rel, fname, rule in ((IO, READER, "R4"), (IO, ARFF, "R4"), (IO, TSV, "R4"), (DS, "_load_dataset", "R3"), (IO, WRITER, "R2")):
+        mod = repo.module(rel)
+        fn = repo.func(rel, fname)
+        c = fname + ":pure-function-of-file"
+        loc = ctx.loc(mod, fn)
+        bad, unknown = [], []
+        for d in fn.decorator_list:
+            target = d.func if isinstance(d, ast.Call) else d
+            sym = repo.resolve_expr(mod, target)
+            name = sym.dotted if sym is not None else (astq.canon(target))
+            last = name.split(".")[-1]
+            if name in MEMO_DECORATORS or last in ("lru_cache", "cache", "memoize", "memoized", "cached"):
+                bad.append(name)
+            else:
+                unknown.append(name)
+        # module-level containers that the function fills
+        for n in astq.walk_no_nested(fn):
+            tgt = None
+            if isinstance(n, ast.Subscript) and isinstance(n.ctx, ast.Store) and isinstance(n.value, ast.Name):
+                tgt = n.value.id
+            elif isinstance(n, ast.Call) and isinstance(n.func, ast.Attribute) and n.func.attr in MUTATORS and isinstance(n.func.value, ast.Name):
+                tgt = n.func.value.id
+            if tgt is None or astq.assigned_in(fn, tgt) or tgt in astq.all_param_names(fn):
+                continue
+            sym = repo.resolve_name(mod, tgt)
+            if sym is not None and sym.kind == "const" and (isinstance(sym.target, (ast.Dict, ast.List, ast.Set)) or (
+                    isinstance(sym.target, ast.Call) and astq.call_name(sym.target) in ("dict", "list", "set", "OrderedDict", "defaultdict"))):
+                bad.append("module-level container %s" % tgt)
+        if any(isinstance(n, ast.Global) for n in astq.walk_no_nested(fn)):
+            unknown.append("global statement")
+        if bad:
+            ctx.violation(rule, c, "%s keeps results across calls (%s): after the file is rewritten under the same path the old panel is "
+                          "returned, and every caller shares (and may modify) the same frame" % (fname, ", ".join(bad)), loc)
+        elif unknown:
+            ctx.undecided(rule, c, "%s is wrapped / uses state the analysis does not know: %s" % (fname, ", ".join(unknown)), loc)
+        else:
+            ctx.ok(rule, c, "no decorator, no module-level state: every call re-reads the file", loc)
+
+
 # ---------------------------------------------------------------------------------------------- entry point
 def run(ctx):
     repo = ctx.repo
@@ -460,12 +509,16 @@ def run(ctx):
                 "and UCR .tsv parsers return the same dim_0 panel and label array for the same abstract univariate data set.")
     ctx.assume("Series.to_string(index=False, header=False) prints one observation per line; printed numbers and labels contain no "
                "',' ':' or white space; textwrap.wrap as in the standard library; float() inverts the printing (precision not decided)")
-    ctx.assume("pandas objects are modelled positionally (concat appends rows, column assignment is by position); index alignment, "
-               "dtypes and the bundled data files themselves are not modelled")
+    ctx.assume("pandas model: concat appends rows and row labels (ignore_index renumbers), frame[col] = Series aligns by row label "
+               "(positional when labels are identical), frame[col] = list/array is positional; dtypes and the bundled data files "
+               "themselves are not modelled")
+    ctx.assume("an observation token stands for any printed number, a label token for any identifier-like text: stripping / replacing "
+               "characters such values may contain changes the value, stripping white space does not; files may lack the final newline")
     ctx.assume("writer flags are bools, class_label / class_value_list are either both given (same length as the panel) or both omitted")
     rule_roundtrip(ctx, repo)
     rule_loader(ctx, repo)
     rule_parsers(ctx, repo)
+    rule_stateless(ctx, repo)
     ctx.floor("R1", 13)
     ctx.floor("R2", 36)
     ctx.floor("R3", 10)
